@@ -619,6 +619,7 @@ func (e *RaceEngine) computeAfter(r *Role) {
 	if r.Join == nil && !r.Scoped {
 		// up the call chain: code after the calls that (transitively) reach the spawning function
 		seen := map[*ssa.Function]bool{r.In: true}
+		nilOnly := map[*ssa.Function]bool{r.In: returnsNilErrorAfter(r.In, r.Go, nil)}
 		var up func(f *ssa.Function, d int)
 		up = func(f *ssa.Function, d int) {
 			if d > 8 {
@@ -636,9 +637,21 @@ func (e *RaceEngine) computeAfter(r *Role) {
 				if _, isGo := edge.Site.(*ssa.Go); isGo {
 					continue
 				}
-				for _, in := range ReachAvoiding(c, edge.Site, nil, func(ssa.Instruction) bool { return true }) {
+				// when the callee returns a non-nil error only on paths that do not pass the go
+				// statement, the caller's "err != nil" branch of this call runs without the goroutine
+				var failed map[*ssa.BasicBlock]bool
+				if nilOnly[f] {
+					failed = errBranchBlocks(edge.Site)
+				}
+				barrier := func(x ssa.Instruction) bool { return failed[x.Block()] }
+				for _, in := range ReachAvoiding(c, edge.Site, barrier, func(ssa.Instruction) bool { return true }) {
 					after[in] = true
 					addCallees(in, afterFn)
+				}
+				if _, done := nilOnly[c]; !done {
+					nilOnly[c] = returnsNilErrorAfter(c, edge.Site, barrier)
+				} else if nilOnly[c] {
+					nilOnly[c] = returnsNilErrorAfter(c, edge.Site, barrier)
 				}
 				if !seen[c] {
 					seen[c] = true
@@ -657,6 +670,76 @@ func (e *RaceEngine) computeAfter(r *Role) {
 		}
 	}
 	e.after[r.Go], e.afterFn[r.Go], e.window[r.Go], e.winFn[r.Go] = after, afterFn, win, winFn
+}
+
+// returnsNilErrorAfter: fn's last result is an error and every return reachable from `from`
+// (not passing the barrier) returns the nil constant there.
+func returnsNilErrorAfter(fn *ssa.Function, from ssa.Instruction, barrier func(ssa.Instruction) bool) bool {
+	res := fn.Signature.Results()
+	if res.Len() == 0 || !isErrorType(res.At(res.Len()-1).Type()) {
+		return false
+	}
+	rets := ReachAvoiding(fn, from, barrier, isReturn)
+	if len(rets) == 0 {
+		return false
+	}
+	for _, x := range rets {
+		ret := x.(*ssa.Return)
+		if len(ret.Results) == 0 {
+			return false
+		}
+		c, ok := ret.Results[len(ret.Results)-1].(*ssa.Const)
+		if !ok || c.Value != nil {
+			return false
+		}
+	}
+	return true
+}
+
+// errBranchBlocks: the blocks of the caller that execute only when the error result of the
+// call instruction is non-nil (true branch of `err != nil`, and what it dominates).
+func errBranchBlocks(call ssa.Instruction) map[*ssa.BasicBlock]bool {
+	out := map[*ssa.BasicBlock]bool{}
+	v, ok := call.(ssa.Value)
+	if !ok {
+		return out
+	}
+	var errVals []ssa.Value
+	if _, isTuple := v.Type().(*types.Tuple); isTuple {
+		for _, ref := range *v.Referrers() {
+			if ex, ok := ref.(*ssa.Extract); ok && isErrorType(ex.Type()) {
+				errVals = append(errVals, ex)
+			}
+		}
+	} else if isErrorType(v.Type()) {
+		errVals = append(errVals, v)
+	}
+	fn := call.Parent()
+	for _, ev := range errVals {
+		for _, ref := range *ev.Referrers() {
+			bo, ok := ref.(*ssa.BinOp)
+			if !ok || bo.Op != token.NEQ {
+				continue
+			}
+			if c, isC := bo.Y.(*ssa.Const); !isC || c.Value != nil {
+				continue
+			}
+			for _, r2 := range *bo.Referrers() {
+				if iff, ok := r2.(*ssa.If); ok {
+					tb := iff.Block().Succs[0]
+					if len(tb.Preds) != 1 {
+						continue
+					}
+					for _, b := range fn.Blocks {
+						if tb.Dominates(b) {
+							out[b] = true
+						}
+					}
+				}
+			}
+		}
+	}
+	return out
 }
 
 // partitionTypes: the struct types an instance of a multi-instance role owns exclusively: the
@@ -1434,13 +1517,22 @@ func (e *RaceEngine) pre(s, c *Role) *preInfo {
 		}
 	}
 	seen := map[*ssa.Function]bool{}
-	var walk func(f *ssa.Function, site ssa.Instruction, d int)
-	walk = func(f *ssa.Function, site ssa.Instruction, d int) {
+	// nilOnly[f]: after the go statement (or after the call leading to it) f returns only a nil error
+	nilOnly := map[*ssa.Function]bool{}
+	var walk func(f *ssa.Function, site ssa.Instruction, d int, calleeNilOnly bool)
+	walk = func(f *ssa.Function, site ssa.Instruction, d int, calleeNilOnly bool) {
 		after := map[ssa.Instruction]bool{}
-		for _, in := range ReachAvoiding(f, site, nil, func(ssa.Instruction) bool { return true }) {
+		// the "err != nil" branch of a call that spawns only on its success paths runs without the goroutine
+		var failed map[*ssa.BasicBlock]bool
+		if calleeNilOnly {
+			failed = errBranchBlocks(site)
+		}
+		barrier := func(x ssa.Instruction) bool { return failed[x.Block()] }
+		for _, in := range ReachAvoiding(f, site, barrier, func(ssa.Instruction) bool { return true }) {
 			after[in] = true
 			addReach(in, afterFn)
 		}
+		nilOnly[f] = returnsNilErrorAfter(f, site, barrier)
 		Instrs(f, func(in ssa.Instruction) {
 			if !after[in] && in != site {
 				pi.instr[in] = true
@@ -1469,11 +1561,11 @@ func (e *RaceEngine) pre(s, c *Role) *preInfo {
 				if _, isGo := edge.Site.(*ssa.Go); isGo {
 					continue
 				}
-				walk(cal, edge.Site, d+1)
+				walk(cal, edge.Site, d+1, nilOnly[f])
 			}
 		}
 	}
-	walk(c.In, c.Go, 0)
+	walk(c.In, c.Go, 0, false)
 	// other entry points of the spawner may run at any later time
 	for _, rt := range s.Roots {
 		if !chainRoots[rt] {
